@@ -31,6 +31,31 @@ fn monomials(n: usize, deg: usize) -> Vec<Vec<usize>> {
 
 /// generic cubic: sum_alpha c_alpha * prod x_i^alpha_i; coefficient names `<pfx>_<e0>_<e1>...`
 pub fn cubic<F: Fl, D: DualNum<F>>(io: &mut Io<F>, pfx: &str, xs: &[D]) -> D {
+    if pfx.starts_with('q') {
+        // generic rational closure: quadratic numerator over 1 + (affine form)^2
+        let mut num = D::from(F::lit(0.0));
+        for m in monomials(xs.len(), 2) {
+            let name = format!(
+                "{pfx}n_{}",
+                m.iter().map(|e| e.to_string()).collect::<Vec<_>>().join("_")
+            );
+            let c = io.scalar(&name);
+            let mut term = D::from(c);
+            for (x, &e) in xs.iter().zip(m.iter()) {
+                for _ in 0..e {
+                    term = term * x.clone();
+                }
+            }
+            num = num + term;
+        }
+        let mut lin = D::from(io.scalar(&format!("{pfx}l_c")));
+        for (i, x) in xs.iter().enumerate() {
+            let c = io.scalar(&format!("{pfx}l_{i}"));
+            lin = lin + x.clone() * c;
+        }
+        let den = lin.clone() * lin + F::lit(1.0);
+        return num / den;
+    }
     let mut acc = D::from(F::lit(0.0));
     for m in monomials(xs.len(), 3) {
         let name = format!(
@@ -86,8 +111,8 @@ macro_rules! scalar_driver {
                     let ($($o),*) = r2;
                     scalars_out(&mut io, "try_out", &[$($o),*]);
                 }
-                "cubic" => {
-                    let r = $drv(|d| cubic(&mut io, "c", &[d]), x);
+                "cubic" | "quot" => {
+                    let r = $drv(|d| cubic(&mut io, if mode == "quot" { "q" } else { "c" }, &[d]), x);
                     let ($($o),*) = r;
                     scalars_out(&mut io, "out", &[$($o),*]);
                 }
@@ -131,8 +156,8 @@ fn drv_spd<F: Fl>(mode: &str, pres: u64) -> CaseOut {
             .unwrap();
             scalars_out(&mut io, "try_out", &[a, b, c, d]);
         }
-        "cubic" => {
-            let (a, b, c, d) = second_partial_derivative(|p, q| cubic(&mut io, "c", &[p, q]), x, y);
+        "cubic" | "quot" => {
+            let (a, b, c, d) = second_partial_derivative(|p, q| cubic(&mut io, if mode == "quot" { "q" } else { "c" }, &[p, q]), x, y);
             scalars_out(&mut io, "out", &[a, b, c, d]);
         }
         "err" => {
@@ -177,8 +202,8 @@ fn drv_tpd<F: Fl>(mode: &str, pres: u64) -> CaseOut {
             .unwrap();
             scalars_out(&mut io, "try_out", &[r.0, r.1, r.2, r.3, r.4, r.5, r.6, r.7]);
         }
-        "cubic" => {
-            let r = third_partial_derivative(|p, q, s| cubic(&mut io, "c", &[p, q, s]), x, y, z);
+        "cubic" | "quot" => {
+            let r = third_partial_derivative(|p, q, s| cubic(&mut io, if mode == "quot" { "q" } else { "c" }, &[p, q, s]), x, y, z);
             scalars_out(&mut io, "out", &[r.0, r.1, r.2, r.3, r.4, r.5, r.6, r.7]);
         }
         "err" => {
@@ -226,9 +251,9 @@ fn drv_tpdv<F: Fl>(mode: &str, pres: u64, n: usize, ijk: (usize, usize, usize)) 
             .unwrap();
             scalars_out(&mut io, "try_out", &[r.0, r.1, r.2, r.3, r.4, r.5, r.6, r.7]);
         }
-        "cubic" => {
+        "cubic" | "quot" => {
             let r = third_partial_derivative_vec(
-                |d: &[HyperHyperDual<F, F>]| cubic(&mut io, "c", d),
+                |d: &[HyperHyperDual<F, F>]| cubic(&mut io, if mode == "quot" { "q" } else { "c" }, d),
                 &xs,
                 i,
                 j,
@@ -285,9 +310,9 @@ macro_rules! vec_drivers {
                     scalars_out(&mut io, "try_f", &[f]);
                     scalars_out(&mut io, "try_g", &(0..$n).map(|i| g[i]).collect::<Vec<_>>());
                 }
-                "cubic" => {
+                "cubic" | "quot" => {
                     let (f, g) = gradient(
-                        |d: OVector<DualVec<F, F, $D>, $D>| cubic(&mut io, "c", d.as_slice()),
+                        |d: OVector<DualVec<F, F, $D>, $D>| cubic(&mut io, if mode == "quot" { "q" } else { "c" }, d.as_slice()),
                         x,
                     );
                     scalars_out(&mut io, "f", &[f]);
@@ -345,9 +370,9 @@ macro_rules! vec_drivers {
                     scalars_out(&mut io, "try_g", &(0..$n).map(|i| g[i]).collect::<Vec<_>>());
                     scalars_out(&mut io, "try_H", &flat(&h));
                 }
-                "cubic" => {
+                "cubic" | "quot" => {
                     let (f, g, h) = hessian(
-                        |d: OVector<Dual2Vec<F, F, $D>, $D>| cubic(&mut io, "c", d.as_slice()),
+                        |d: OVector<Dual2Vec<F, F, $D>, $D>| cubic(&mut io, if mode == "quot" { "q" } else { "c" }, d.as_slice()),
                         x,
                     );
                     scalars_out(&mut io, "f", &[f]);
@@ -426,11 +451,11 @@ macro_rules! jac_driver {
                     scalars_out(&mut io, "try_f", &(0..$m).map(|i| f[i]).collect::<Vec<_>>());
                     scalars_out(&mut io, "try_J", &flat(&jac));
                 }
-                "cubic" => {
+                "cubic" | "quot" => {
                     let (f, jac) = jacobian(
                         |d: OVector<DualVec<F, F, $N>, $N>| {
                             let rets: Vec<DualVec<F, F, $N>> = (0..$m)
-                                .map(|q| cubic(&mut io, &format!("c{q}"), d.as_slice()))
+                                .map(|q| cubic(&mut io, &format!("{}{q}", if mode == "quot" { "q" } else { "c" }), d.as_slice()))
                                 .collect();
                             let o: OVector<DualVec<F, F, $N>, $M> = mkout(rets);
                             o
@@ -536,13 +561,13 @@ macro_rules! ph_driver {
                     scalars_out(&mut io, "try_fy", &(0..$n).map(|i| fy[i]).collect::<Vec<_>>());
                     scalars_out(&mut io, "try_fxy", &flat(&fxy));
                 }
-                "cubic" => {
+                "cubic" | "quot" => {
                     let (f, fx, fy, fxy) = partial_hessian(
                         |p: OVector<HyperDualVec<F, F, $M, $N>, $M>,
                          q: OVector<HyperDualVec<F, F, $M, $N>, $N>| {
                             let mut all: Vec<HyperDualVec<F, F, $M, $N>> = p.iter().cloned().collect();
                             all.extend(q.iter().cloned());
-                            cubic(&mut io, "c", &all)
+                            cubic(&mut io, if mode == "quot" { "q" } else { "c" }, &all)
                         },
                         x,
                         y,
